@@ -157,7 +157,7 @@ def run(ctx):
     # -simulate is open-ended here (every behaviour ends in a state without successors): stop it after a time box,
     # and give it a longer one when the machine is busy
     beh = []
-    for box in ((60, 240) if quick else (240, 900)):
+    for box in ((60, 240, 900) if quick else (240, 900, 2400)):
         r = ctx.tlc_run('sys/OMSetGet', cfgs, simulate='num=%d' % nbeh, depth=depth + 1, seed=ctx.seed + 1, workers=4,
                         timeout=box)
         r.out = r.out[:r.out.rfind('\n') + 1]      # drop a possibly truncated last line
